@@ -45,7 +45,7 @@ struct XCompare : Engine {
     std::vector<RV> T; std::vector<cJSON*> real[3]; std::vector<std::string> text; std::vector<cJSON*> keep; cJSON invalid_node; std::string built_for; bool verbose = false; Lits* lits = nullptr;
     const char* name() override { return "x_compare"; }
     std::vector<std::string> counter_names() override { return { "pairs", "model_equal", "model_unequal", "unconstrained", "compare_calls", "self_and_variant_checks" }; }
-    std::vector<std::string> stages() override { std::vector<std::string> st = { "n1", "n2", "keys", "n3" }; if (cfg.thorough()) st.push_back("n4r"); st.push_back("special"); return st; }
+    std::vector<std::string> stages() override { std::vector<std::string> st = { "n1", "n2", "keys", "lengths", "counts", "n3" }; if (cfg.thorough()) st.push_back("n4r"); st.push_back("special"); return st; }
     std::vector<std::string*> keypool;
     const char* ckey(const std::string& k) { if (k == "a") return lits->a; if (k == "A") return lits->A; if (k == "b") return lits->b; keypool.push_back(new std::string(k)); return keypool.back()->c_str(); }
 
@@ -55,12 +55,36 @@ struct XCompare : Engine {
             for (auto& x : std::vector<RV>{ RV::mk(RV::False), RV::number(0), RV::number(nextafter(1.0, 2.0)), RV::number(1e300), RV::number(nextafter(1e300, INFINITY)), RV::number(0x1.8p-1022), RV::number(0x1.8p-1022 + 2 * 0x1p-1074), RV::number(5e-324), RV::number(NAN), RV::number(-1), RV::number(3.0), RV::number(nextafter(3.0, 0.0)), RV::number(-(1.0 - DBL_EPSILON)), RV::string("t"), RV::string(""), raw, raw2, raw3 }) l.push_back(x); }
         return l;
     }
+    int group = 0;   // > 0: the trees come in groups of this size and only pairs inside a group are compared
     void build(const std::string& stage) {
         if (built_for == stage) return; built_for = stage;
         if (!lits) { lits = new Lits(); lits->init(); }
         T.clear(); for (int v = 0; v < 3; v++) real[v].clear(); text.clear();
         int n = stage == "n1" ? 1 : stage == "n2" ? 2 : stage == "n3" ? 3 : stage == "n4r" ? 4 : 2;
         TreeAlphabet al; al.leaves = leaves(stage == "n4r"); al.keys = { "a", "A", "b" }; al.dup_keys = false; al.max_arity = 3; al.max_depth = 3;
+        group = 0;
+        if (stage == "lengths") {
+            // strings and member names of every length 0..300 and around 512 / 1024: each against itself, a copy that differs in the last / a middle character, one that is one longer,
+            // case variants, a non-ASCII last character; compared within the group of the same length
+            std::vector<int> lad; for (int i = 0; i <= 300; i++) lad.push_back(i); for (int i : { 511, 512, 513, 1023, 1024, 1025 }) lad.push_back(i);
+            for (int L : lad) { std::string S; for (int i = 0; i < L; i++) S += (char)('a' + (i * 7 + 3) % 26);
+                std::string last = S, mid = S, up = S, lastup = S, na = S, naup = S; if (L) { last[(size_t)L - 1] = last[(size_t)L - 1] == 'z' ? 'y' : 'z'; mid[(size_t)L / 2] = '#'; for (auto& ch : up) ch = (char)toupper(ch); lastup[(size_t)L - 1] = (char)toupper(lastup[(size_t)L - 1]); na[(size_t)L - 1] = (char)0xE9; naup = na; naup[0] = (char)toupper(naup[0]); } else { last = "z"; mid = "#"; up = "Q"; lastup = "q"; na = "\xE9"; naup = "\xC9"; }
+                auto O1 = [](const std::string& k, double v) { RV o = RV::mk(RV::Obj); o.obj.emplace_back(k, RV::number(v)); return o; };
+                RV two = RV::mk(RV::Obj); two.obj.emplace_back(S, RV::number(1)); two.obj.emplace_back(S + "x", RV::number(2)); RV two2 = RV::mk(RV::Obj); two2.obj.emplace_back(S + "x", RV::number(2)); two2.obj.emplace_back(S, RV::number(1));
+                RV raw = RV::mk(RV::Raw); raw.str = S; RV arr = RV::mk(RV::Arr); arr.arr = { RV::string(S), RV::string(last) };
+                std::vector<RV> g = { RV::string(S), RV::string(last), RV::string(S + "x"), RV::string(mid), O1(S, 1), O1(last, 1), O1(up, 1), O1(lastup, 1), O1(S + "x", 1), two, two2, O1(na, 1), O1(naup, 1), raw, arr, O1(S, 2) };
+                group = (int)g.size(); for (auto& t : g) T.push_back(t); }
+        } else if (stage == "counts") {
+            // containers with every member count up to 70 and some larger ones: same members in another order, one value / one name changed, one member missing
+            std::vector<int> lad; for (int i = 0; i <= 70; i++) lad.push_back(i); for (int i : { 100, 127, 128, 129, 255, 256, 257, 1000 }) lad.push_back(i);
+            for (int n : lad) { auto key = [](int i) { char b[16]; snprintf(b, sizeof b, "k%04d", i * 37 % 10007); return std::string(b); };
+                RV o = RV::mk(RV::Obj), a = RV::mk(RV::Arr); for (int i = 0; i < n; i++) { o.obj.emplace_back(key(i), RV::number(i)); a.arr.push_back(RV::number(i)); }
+                RV rev = o; std::reverse(rev.obj.begin(), rev.obj.end()); RV rot = o; if (n > 1) std::rotate(rot.obj.begin(), rot.obj.begin() + 1, rot.obj.end());
+                RV val = o; if (n) val.obj[(size_t)n / 2].second = RV::number(-1); RV nam = o; if (n) nam.obj[(size_t)n - 1].first = "zz"; RV mis = o; if (n) mis.obj.pop_back(); RV fst = o; if (n) fst.obj.erase(fst.obj.begin());
+                RV al = a; if (n) al.arr[(size_t)n - 1] = RV::number(-1); RV am = a; if (n) am.arr.pop_back(); RV ar = a; std::reverse(ar.arr.begin(), ar.arr.end()); RV af = a; if (n) af.arr[0] = RV::string("s");
+                std::vector<RV> g = { o, rev, rot, val, nam, mis, fst, a, al, am, ar, af };
+                group = (int)g.size(); for (auto& t : g) T.push_back(t); }
+        } else
         if (stage == "keys") {   // one-member objects over every single-byte key and some two-byte keys: exercises the key comparison itself
             std::vector<std::string> ks; for (int b = 1; b < 256; b++) ks.push_back(std::string(1, (char)b));
             for (const char* k : { "ab", "Ab", "aB", "AB", "a[", "a{", "a@", "a`", "", "aa", "a", "abc", "ABC", "Abd" }) ks.push_back(k);
@@ -85,7 +109,7 @@ struct XCompare : Engine {
         for (size_t i = 0; i < n; i++) {
             if (!pool_take()) continue;
             static Case c; c.len = 0;
-            for (size_t j = 0; j < n; j++) for (int cs = 0; cs < 2; cs++) { c.kind = 0; c.iv[1] = (int64_t)i; c.iv[2] = (int64_t)j; c.iv[3] = cs; pool_run(c); }
+            for (size_t j = (group ? i / (size_t)group * (size_t)group : 0); j < (group ? (i / (size_t)group + 1) * (size_t)group : n); j++) for (int cs = 0; cs < 2; cs++) { c.kind = 0; c.iv[1] = (int64_t)i; c.iv[2] = (int64_t)j; c.iv[3] = cs; pool_run(c); }
             c.kind = 1; c.iv[1] = (int64_t)i; pool_run(c);
         }
     }
